@@ -494,7 +494,8 @@ Print Assumptions C01_lost_name_check_refuted.
 (* 9. storage READ faults inside the model (Engine/OpsR.v): the four operations with, at every
    storage read, the error handler the Go code has at that call site.  Run/RunC01.v evaluates these
    programs on every history the harness ran with a read fault injected into the real driver. *)
-From Helm Require Import Engine.OpsR Engine.OpsRProofs Engine.OpsRLedger.
+From Helm Require Import Engine.OpsR Engine.OpsRProofs Engine.OpsRLedger Engine.OpsRClean.
+From Helm Require Engine.Skeleton Engine.SkeletonModel Engine.SkeletonRead Engine.SkeletonExpected Gen.ActionSkeleton.
 
 (* without a read fault they ARE the operations every theorem above speaks about: the same run
    under every cluster handler, fault plan and state *)
@@ -523,6 +524,30 @@ Print Assumptions C01_read_fault_transfer.
 Theorem C01_read_handlers_quiet : forall (rn ns : string) (o : op), hqQ anyQ (op_progR rn ns o).
 Proof. exact hq_op. Qed.
 Print Assumptions C01_read_handlers_quiet.
+
+
+(* the read positions of the model are the storage reads: every [RTry] node is SHistory / SDeployedAll / SGet and
+   every embedded program of Engine/Ops.v (hooks, recordRelease, purge, pruning deletions, supersede loop, single
+   cluster calls and writes) performs none - so "the n-th read" counts what the harness's driver wrapper counts *)
+Theorem C01_read_positions_are_reads : forall (rn ns : string) (o : op), liftclean (op_progR rn ns o).
+Proof. exact liftclean_op. Qed.
+Print Assumptions C01_read_positions_are_reads.
+
+
+(* the handlers against the Go SOURCE (not only against its behaviour in the correspondence run): for every
+   scenario of the failure space of Engine/SkeletonModel.v (options x ledgers, 188 read positions over the four
+   operations) the run of the model with that read answering an error - the read, then what the handler does, then
+   nothing - is a path of the effect skeleton extracted from /repo on THIS run, in the finer path language (effect
+   kind, answered an error): where the Go code returns on the error of a read the model returns, and what the model
+   still does there (rollback's last lookup: record the revision failed) the Go code does on that branch *)
+Theorem C01_read_faults_follow_source :
+  SkeletonRead.read_fine_ok ActionSkeleton.skeleton = true /\ SkeletonRead.read_fine_count = 188.
+Proof. split; vm_compute; reflexivity. Qed.
+Print Assumptions C01_read_faults_follow_source.
+
+Theorem C01_read_faults_follow_expected : SkeletonRead.read_fine_ok SkeletonExpected.expected = true.
+Proof. vm_compute. reflexivity. Qed.
+Print Assumptions C01_read_faults_follow_expected.
 
 (* so: whichever storage read of whichever operation fails, under every cluster behaviour, revisions
    stay unique and at most one is deployed (H2 as above) *)
